@@ -504,6 +504,15 @@ class TryExceptEvaluate(NestedNodeKernel):
     def params(self, I):
         return {"view": self.view, "evaluation_time": self.T}
 
+    def f_single_nested_graph_evaluate(self, I, args, n):
+        """callee contract, proved on SingleNestedEvaluate: not started -> true, nothing happens; otherwise the boundaries are
+        re-bound, the child is evaluated once at the given time, its failure propagates unchanged; no schedule is pulled up"""
+        ctx = I.ctx
+        if not ctx.decide(self.view_started, "callee: view started"):
+            return z3.BoolVal(True)
+        self.gs_(I, "binds", self.gg(ctx, "binds") + 2)
+        return self.c_evaluate(I, None, [args[1]], n)
+
     def f_write_try_except_error(self, I, args, n):
         ctx = I.ctx
         self.gs_(I, "err_writes", self.gg(ctx, "err_writes") + 1)
